@@ -1,3 +1,4 @@
+import TongoModel.PoolSelect
 /-! Transition system of the wait list of `liteapi/pool` (conn_pool.go: Run, updateBest, notifySubscribers, subscribe,
 unsubscribe, WaitMasterchainSeqno; connection.go: SetMasterHead, MasterHead). Core Lean only, executable.
 
@@ -16,24 +17,33 @@ Two code variants are modelled (`Variant`):
   the two, put it back with a non-blocking send.
 * `pubUnlocked = false`: `SetMasterHead` sends to `masterHeadUpdatedCh` while holding the connection mutex (original);
   `pubUnlocked = true`: it releases the mutex first (repaired).
+* `oneSnapshot = false`: `updateBest` reads every head twice (original); `true`: once (repaired).
+* `notifySwitch = false`: a switch of the best connection notifies nobody (original); `true`: repaired.
 
-`updateBest` is abstracted to what matters for the protocol: it takes the write lock, reads the head of every
-connection in order (each read needs that connection's mutex), then stores ANY member (or keeps the previous
-choice) and unlocks — the selection rule itself is `TongoModel/PoolSelect.lean`. Timer expiry and context
-cancellation of a waiter and the ticker of `Run` are environment actions (`wFire`, `tick`), enabled whenever the
-thread is parked in its select. Ghost fields (`received`, `fired`, `offered`, `log`) record history for the theorems
+`updateBest` is modelled read by read (round 2; no abstraction of the choice): under the write lock the first loop
+reads `MasterHead()` of every member in order (each read needs that member's mutex) — `ubRead`; the selection loop
+reads `IsOK()` / `AverageRoundTrip()` of every member and, in the original code (`oneSnapshot = false`),
+`MasterHead()` AGAIN — `ubSel`; `ubSet` then stores exactly `PoolSelect.selectWith` applied to the maximum of the
+first loop and to what the selection loop read. SetMasterHead callers may move heads between any two reads. With
+`notifySwitch` a change of the choice offers the new member's (snapshot) head to every waiter, still under the write
+lock. Liveness / round-trip time of a member are environment-controlled (`setAlive`, `setRtt`). Timer expiry and
+context cancellation of a waiter and the ticker of `Run` are environment actions (`wFire`, `tick`), enabled whenever
+the thread is parked in its select. Ghost fields (`received`, `fired`, `offered`, `log`) record history for the theorems
 and do not influence any step. -/
 namespace Tongo.PoolSM
+open Tongo.PoolSelect (Conn Strategy selectWith maxOfSeqs)
 
 structure Variant where
   nbNotify : Bool
   pubUnlocked : Bool
+  oneSnapshot : Bool := true
+  notifySwitch : Bool := true
   deriving DecidableEq, Repr
 
 /-- the code as originally written -/
-def orig : Variant := ⟨false, false⟩
+def orig : Variant := ⟨false, false, false, false⟩
 /-- the repaired code -/
-def fixed : Variant := ⟨true, true⟩
+def fixed : Variant := ⟨true, true, true, true⟩
 
 /-- capacity of `masterHeadUpdatedCh` -/
 def updCap : Nat := 10
@@ -52,15 +62,21 @@ inductive RunPc where
   | idle
   /-- tick received: at `p.mu.Lock()` of updateBest -/
   | ubWant
-  /-- holding the write lock, about to call `conns[i].MasterHead()`; `i = number of connections`: about to store -/
-  | ubRead (i : Nat)
+  /-- first loop of updateBest: holding the write lock, about to call `conns[i].MasterHead()`; `seqs` = heads read -/
+  | ubRead (i : Nat) (seqs : List (BitVec 32))
+  /-- selection loop: about to look at member `i` (IsOK, AverageRoundTrip and — original code — MasterHead again);
+  `acc` = what the loop has read so far; `i = number of members`: about to store -/
+  | ubSel (i : Nat) (seqs : List (BitVec 32)) (acc : List Conn)
   /-- update `(c, h)` received: at `p.mu.RLock()` of notifySubscribers -/
   | nWant (c h : Nat)
-  /-- holding the read lock, iterating: channels (by waiter index) still to be served with head `h` -/
-  | nLoop (h : Nat) (todo : List Nat)
+  /-- holding the read lock, at the `bestConn == nil` / `update.Conn.ID() != p.bestConn.ID()` test -/
+  | nCheck (c h : Nat)
+  /-- iterating over the wait list with head `h`: channels (by waiter index) still to be served. `sw = false`: inside
+  notifySubscribers (read lock held); `sw = true`: inside updateBest after a switch (write lock held) -/
+  | nLoop (sw : Bool) (h : Nat) (todo : List Nat)
   /-- repaired code only: between the draining select and the sending select for the channel of waiter `w`;
   `h'` is the head to put -/
-  | nPut (h h' : Nat) (w : Nat) (todo : List Nat)
+  | nPut (sw : Bool) (h h' : Nat) (w : Nat) (todo : List Nat)
   deriving DecidableEq, Repr, Inhabited
 
 inductive WRes where
@@ -119,6 +135,11 @@ structure State where
   /-- connection mutexes: the setter holding it -/
   connLock : List (Option Nat)
   best : Option Nat
+  /-- `IsOK()` per member (environment) -/
+  alive : List Bool := []
+  /-- `AverageRoundTrip()` per member (environment) -/
+  rtt : List Int := []
+  strategy : Strategy := .bestPing
   /-- `masterHeadUpdatedCh` -/
   upd : List (Nat × Nat) := []
   rw : RW := .free
@@ -137,9 +158,11 @@ inductive Action where
   | tick
   | ubLock
   | ubRead
-  | ubSet (c : Option Nat)
+  | ubSel
+  | ubSet
   | recv
   | nRLock
+  | nCheck
   | nSend (w : Nat)
   | nDrain (w : Nat)
   | nPut
@@ -151,12 +174,16 @@ inductive Action where
   | wUnsub (i : Nat)
   | sLock (j : Nat)
   | sSend (j : Nat)
+  | setAlive (c : Nat) (b : Bool)
+  | setRtt (c : Nat) (r : Int)
   deriving DecidableEq, Repr, Inhabited
 
-/-- environment actions: the ticker, a waiter's timer / context -/
+/-- environment actions: the ticker, a waiter's timer / context, liveness and round-trip time of a member -/
 def Action.isEnv : Action → Bool
   | .tick => true
   | .wFire _ => true
+  | .setAlive _ _ => true
+  | .setRtt _ _ => true
   | _ => false
 
 def State.setW (s : State) (i : Nat) (w : Waiter) : State := { s with waiters := s.waiters.set i w }
@@ -167,16 +194,35 @@ def connFree (s : State) (c : Nat) : Bool := (s.connLock.getD c none).isNone
 def step (v : Variant) (s : State) : Action → Option State
   -- ---------------------------------------------------------------- Run: updateBest
   | .tick => if s.run = .idle then some { s with run := .ubWant } else none
-  | .ubLock => if s.run = .ubWant ∧ s.rw = .free then some { s with run := .ubRead 0, rw := .wrRun } else none
+  | .ubLock => if s.run = .ubWant ∧ s.rw = .free then some { s with run := .ubRead 0 [], rw := .wrRun } else none
   | .ubRead => match s.run with
-    | .ubRead i => if i < s.heads.length ∧ connFree s i then some { s with run := .ubRead (i + 1) } else none
+    | .ubRead i seqs =>
+      if i < s.heads.length then
+        if connFree s i then some { s with run := .ubRead (i + 1) (seqs ++ [BitVec.ofNat 32 (s.heads.getD i 0)]) }
+        else none
+      else some { s with run := .ubSel 0 seqs [] }
     | _ => none
-  | .ubSet c => match s.run with
-    | .ubRead i =>
+  | .ubSel => match s.run with
+    | .ubSel i seqs acc =>
+      if i < s.heads.length then
+        if v.oneSnapshot then
+          some { s with run := .ubSel (i + 1) seqs (acc ++ [Conn.mk i (s.alive.getD i false)
+            (seqs.getD i 0) (s.rtt.getD i 0)]) }
+        else if connFree s i then
+          some { s with run := .ubSel (i + 1) seqs (acc ++ [Conn.mk i (s.alive.getD i false)
+            (BitVec.ofNat 32 (s.heads.getD i 0)) (s.rtt.getD i 0)]) }
+        else none
+      else none
+    | _ => none
+  | .ubSet => match s.run with
+    | .ubSel i seqs acc =>
       if s.heads.length ≤ i then
-        match c with
+        match selectWith false s.strategy (maxOfSeqs seqs) acc with
         | none => some { s with run := .idle, rw := .free }
-        | some c => if c < s.heads.length then some { s with run := .idle, rw := .free, best := some c } else none
+        | some c =>
+          if v.notifySwitch ∧ s.best ≠ some c.id ∧ 0 < c.seqno.toNat then
+            some { s with best := some c.id, run := .nLoop true c.seqno.toNat (s.waitList.map (·.2)) }
+          else some { s with best := some c.id, run := .idle, rw := .free }
       else none
     | _ => none
   -- ---------------------------------------------------------------- Run: notifySubscribers
@@ -184,48 +230,49 @@ def step (v : Variant) (s : State) : Action → Option State
     | .idle, (c, h) :: rest => some { s with run := .nWant c h, upd := rest }
     | _, _ => none
   | .nRLock => match s.run with
-    | .nWant c h =>
-      if s.rw = .free then
-        if s.best = some c then some { s with rw := .rd, run := .nLoop h (s.waitList.map (·.2)) }
-        else some { s with run := .idle }
-      else none
+    | .nWant c h => if s.rw = .free then some { s with rw := .rd, run := .nCheck c h } else none
+    | _ => none
+  | .nCheck => match s.run with
+    | .nCheck c h =>
+      if s.best = some c then some { s with run := .nLoop false h (s.waitList.map (·.2)) }
+      else some { s with run := .idle, rw := .free }
     | _ => none
   | .nSend w => match s.run with
-    | .nLoop h todo =>
+    | .nLoop sw h todo =>
       if !v.nbNotify ∧ w ∈ todo then
         match s.waiters[w]? with
         | some x =>
           if x.buf.length < 1 then
             some { (s.setW w { x with buf := x.buf ++ [h] }) with
-              run := .nLoop h (todo.erase w), log := s.log ++ [(w, s.best.getD 0, h)] }
+              run := .nLoop sw h (todo.erase w), log := s.log ++ [(w, s.best.getD 0, h)] }
           else none
         | none => none
       else none
     | _ => none
   | .nDrain w => match s.run with
-    | .nLoop h todo =>
+    | .nLoop sw h todo =>
       if v.nbNotify ∧ w ∈ todo then
         match s.waiters[w]? with
         | some x =>
           let off := match x.offered with | none => h | some m => max m h
           match x.buf with
           | u :: rest => some { (s.setW w { x with buf := rest, offered := some off }) with
-              run := .nPut h (max u h) w (todo.erase w), log := s.log ++ [(w, s.best.getD 0, h)] }
+              run := .nPut sw h (max u h) w (todo.erase w), log := s.log ++ [(w, s.best.getD 0, h)] }
           | [] => some { (s.setW w { x with offered := some off }) with
-              run := .nPut h h w (todo.erase w), log := s.log ++ [(w, s.best.getD 0, h)] }
+              run := .nPut sw h h w (todo.erase w), log := s.log ++ [(w, s.best.getD 0, h)] }
         | none => none
       else none
     | _ => none
   | .nPut => match s.run with
-    | .nPut h h' w todo =>
+    | .nPut sw h h' w todo =>
       match s.waiters[w]? with
       | some x =>
-        if x.buf.length < 1 then some { (s.setW w { x with buf := x.buf ++ [h'] }) with run := .nLoop h todo }
-        else some { s with run := .nLoop h todo }
+        if x.buf.length < 1 then some { (s.setW w { x with buf := x.buf ++ [h'] }) with run := .nLoop sw h todo }
+        else some { s with run := .nLoop sw h todo }
       | none => none
     | _ => none
   | .nDone => match s.run with
-    | .nLoop _ [] => some { s with run := .idle, rw := .free }
+    | .nLoop _ _ [] => some { s with run := .idle, rw := .free }
     | _ => none
   -- ---------------------------------------------------------------- waiters
   | .wLock i => match s.waiters[i]? with
@@ -292,6 +339,9 @@ def step (v : Variant) (s : State) : Action → Option State
         | _ => none
       else none
     | none => none
+  -- ---------------------------------------------------------------- environment: members die, revive, slow down
+  | .setAlive c b => if c < s.alive.length then some { s with alive := s.alive.set c b } else none
+  | .setRtt c r => if c < s.rtt.length then some { s with rtt := s.rtt.set c r } else none
 
 /-- run a list of actions; `none` if one of them is not enabled -/
 def runTrace (v : Variant) (s : State) : List Action → Option State
@@ -301,15 +351,16 @@ def runTrace (v : Variant) (s : State) : List Action → Option State
     | none => none
 
 /-- initial states: nobody has started; any number of waiters (any targets) and setters (any connection / head) -/
-def mkInit (heads : List Nat) (best : Option Nat) (targets : List Nat) (pubs : List (Nat × Nat)) : State :=
+def mkInit (heads : List Nat) (best : Option Nat) (targets : List Nat) (pubs : List (Nat × Nat))
+    (strategy : Strategy := .bestPing) (rtts : List Int := []) : State :=
   { heads := heads, connLock := heads.map (fun _ => none), best := best,
+    alive := heads.map (fun _ => true), rtt := heads.zipIdx.map (fun (_, i) => rtts.getD i 1), strategy := strategy,
     waiters := targets.map (fun t => { target := t }),
     setters := pubs.map (fun p => { conn := p.1, head := p.2 }) }
 
 /-- candidate actions of a state (every action that can possibly be enabled is among them, `step_some_mem`) -/
 def allActions (s : State) : List Action :=
-  [.tick, .ubLock, .ubRead, .ubSet none, .recv, .nRLock, .nPut, .nDone]
-  ++ (List.range s.heads.length).map (fun c => .ubSet (some c))
+  [.tick, .ubLock, .ubRead, .ubSel, .ubSet, .recv, .nRLock, .nCheck, .nPut, .nDone]
   ++ (List.range s.waiters.length).flatMap (fun i => [.nSend i, .nDrain i, .wLock i, .wSub i, .wRecv i, .wFire i, .wUnsub i])
   ++ (List.range s.setters.length).flatMap (fun j => [.sLock j, .sSend j])
 
